@@ -44,6 +44,7 @@ type c06Fault struct {
 var c06Faults = []c06Fault{
 	{"undefined", "zz"}, {"undefined", "zz = 1"}, {"undefined", "zz + 1"}, {"undefined", "zz = \"PROMPT\""}, {"undefined", "zq = [1, 2]"}, {"undefined", "zq = f1"},
 	{"type", "1 - nil"}, {"type", "-\"x\""}, {"type", "~0.5"}, {"type", "nil < 1"}, {"type", bn.KwTrue + " + 1"}, {"type", "[1] * 2"},
+	{"shift", "1 << (0 - 1)"}, {"shift", "1 >> (~(1 << 62))"}, {"shift", "((1 << 62) | 1) << (~(1 << 62))"}, {"shift", "((1 << 62) | 1) >> (~9007199254740992)"},
 	{"zero", "1 / 0"}, {"zero", "5 % 0"}, {"zero", "1 / (010 - 10)"}, {"zero", "5 % (০০৮ - ৮)"}, {"index", "arr[0010 - 8]"}, // literals with leading zeros are decimal
 	{"index", "arr[5]"}, {"index", "arr[0 - 1]"}, {"index", "arr[0.5]"}, {"index", "arr[5] = 1"}, {"index", "nil[0]"}, {"index", "arr[nil]"}, {"index", "d[0] = 1"},
 	{"property", "obj.nope"}, {"property", "d.a"}, {"property", "d.a = 1"},
